@@ -39,15 +39,27 @@ type c06Case struct {
 	HostWrites [][]byte
 	Split      []int // split the concatenated client packets at these offsets (nil: one packet per segment)
 	Burst      bool
+	HostPaced  bool // the host's writes come one by one after the client's packets (an empty one is an empty write)
+	HostStalls int  // > 0: the host reads nothing (send window of that many bytes) until after the client's packet number HostResume
+	HostResume int
 }
 
 func c06Run(c c06Case, rep *Report) (viol, detail string) {
 	cfg := c01Cfg(true, false, c.Kind)
-	cfg.BackendSay = c.HostWrites
+	if !c.HostPaced {
+		cfg.BackendSay = c.HostWrites
+	}
 	segs := c06Setup()
+	cfg.BackendWindow = c.HostStalls
 	if c.Split == nil {
-		for _, p := range c.ClientPkts {
+		for i, p := range c.ClientPkts {
 			segs = append(segs, Seg{Bytes: p, NoWait: c.Burst})
+			if c.HostStalls > 0 && i+1 == c.HostResume {
+				segs = append(segs, Seg{Action: "deadlines"}, Seg{Action: "hostdrain"})
+			}
+		}
+		if c.HostStalls > 0 {
+			segs = append(segs, Seg{Action: "deadlines"}, Seg{Action: "hostdrain"})
 		}
 	} else {
 		var stream []byte
@@ -56,6 +68,11 @@ func c06Run(c c06Case, rep *Report) (viol, detail string) {
 		}
 		for _, part := range cutStream(stream, c.Split) {
 			segs = append(segs, Seg{Bytes: part, NoWait: c.Burst})
+		}
+	}
+	if c.HostPaced {
+		for _, w := range c.HostWrites {
+			segs = append(segs, Seg{HostSay: append([]byte{}, w...)})
 		}
 	}
 	segs = append(segs, Seg{Bytes: tsgu.Keepalive()})
@@ -235,7 +252,7 @@ func c06ConcCheck(sc ConcScenario) func(res *ConcResult, races []RaceReport) (st
 }
 
 func c06(env *Env, rep *Report) {
-	rep.Rule = "(a) sequential, both transports: client data packets of payload sizes {0,1,2,4085,4086,4087,4096,8192,65535} alone, in every ordered pair, and selected triples, paced and in bursts, the stream of each pair also cut at offsets {1,7,8,9,10,len-1} of the second packet; data packets whose length field is actual-1, actual+1, 0, 0xFFFF; host writes of sizes {1,4086,4087,8192,65535} alone and in pairs. " +
+	rep.Rule = "(a) sequential, both transports: client data packets of payload sizes {0,1,2,4085,4086,4087,4096,8192,65535} alone, in every ordered pair, and selected triples, paced and in bursts, the stream of each pair also cut at offsets {1,7,8,9,10,len-1} of the second packet; data packets whose length field is actual-1, actual+1, 0, 0xFFFF; host writes of sizes {1,4086,4087,8192,65535} alone and in pairs; host reads that return no bytes and no error between ordinary ones; a host that stops reading until its window is full and every gateway deadline has fired, then reads again. " +
 		"Oracle: bytes at the host == concatenation of the declared payloads (for a length field larger than the bytes carried: nothing but carried bytes may be delivered for that packet); payloads of the data packets at the client == bytes the host wrote; every data packet to the client well-formed (header length == bytes sent, payload-length field == payload). " +
 		"(b) schedules: one tunnel, client sends 2 data packets + keep-alive while the host writes 2 chunks; every schedule up to the preemption bound; both streams must arrive complete and in order; the client closing the channel while the host still writes (what arrives before the close response is a prefix of the host's stream, every packet well-formed); two tunnels whose hosts write at the same time (deviation bound). distinct_nontrivial = distinct cases (a) + distinct observations (b)."
 	rep.Assumptions = append(rep.Assumptions, "'several MiB' is bounded to 3 x 65535 bytes per direction", "byte patterns are position dependent (i*3+seed) so that reordering, duplication and loss change the stream")
@@ -283,6 +300,30 @@ func c06(env *Env, rep *Report) {
 			for _, b := range hs {
 				cases = append(cases, c06Case{Name: fmt.Sprintf("host-%d-%d", a, b), Kind: kind, HostWrites: [][]byte{pattern(a, 5), pattern(b, 99)}, ClientPkts: [][]byte{tsgu.Data([]byte("x"))}, Declared: [][]byte{[]byte("x")}})
 			}
+		}
+	}
+	// fault point: a read from the host that returns no bytes and no error (an empty write of the peer), between
+	// two ordinary reads, at the start and at the end
+	for _, kind := range []string{"ws", "legacy"} {
+		for i, hw := range [][][]byte{
+			{[]byte("hello "), {}, []byte("world!")},
+			{{}, []byte("hello world!")},
+			{[]byte("hello world!"), {}},
+			{[]byte("a"), {}, {}, []byte("b"), {}, []byte("c")},
+		} {
+			cases = append(cases, c06Case{Name: fmt.Sprintf("host-empty-read-%d", i), Kind: kind, HostWrites: hw, HostPaced: true, ClientPkts: [][]byte{tsgu.Data([]byte("x"))}, Declared: [][]byte{[]byte("x")}})
+		}
+	}
+	// fault point: the host stops reading (its receive window, 64 bytes here, fills up), the client keeps
+	// sending, every deadline the gateway may have set fires, then the host reads again: the stream has no hole
+	for _, kind := range []string{"ws", "legacy"} {
+		for resume := 2; resume <= 5; resume++ {
+			var pk, dc [][]byte
+			for i := 0; i < 6; i++ {
+				p, d := mk(40, byte(10+i))
+				pk, dc = append(pk, p), append(dc, d)
+			}
+			cases = append(cases, c06Case{Name: fmt.Sprintf("host-stalls-resumes-after-%d", resume), Kind: kind, ClientPkts: pk, Declared: dc, HostStalls: 64, HostResume: resume})
 		}
 	}
 	scs := c06Conc()
